@@ -27,10 +27,14 @@ ASSUMPTIONS = [
     'a hand-built networkx workflow graph + loop placeholders; the real Job.producerInstances over the same graph); '
     'the optimizer-driven repeat interval is disabled; '
     'Engine.emit_now (state emission on rx pools) and archive_stream are stubbed',
+    'real-producer scripts: the observer and its producers are real Job objects of an experiment instantiated from a scratch package '
+    '(real JobWorkingDirectory, real Job.stageIn / StageReference, real Job.producerInstances / producersHaveOutputSinceDate); file '
+    'timestamps are set to the fake clock with os.utime; directories are created with ignoreExisting=False (no experiment restart)',
     'task durations are positive (a zero duration makes _perfData_launch_succeeded divide by zero)',
 ]
 HEADER = 'Require Import V.Repeat.Model.\nOpen Scope Z_scope.'
 HEADER4 = 'Require Import V.Repeat.Model V.Repeat.RefsModel.\nOpen Scope Z_scope.'
+HEADER_WD = 'From Coq Require Import String.\nRequire Import V.Repeat.WorkDir.\nOpen Scope Z_scope.'
 F13_CLASS = 'repeatRetries_below_threshold'
 
 
@@ -62,6 +66,56 @@ def REF(*to, **k):
 
 def eff_retries(cfg):
     return 3 if cfg['retries'] is None else cfg['retries']
+
+
+# ------------------------------------------------------------------ real producers: the model's view of a script
+def RP(direct=(), comp=(), src=False, late=False):
+    # one REAL producer: direct references (file under data/ or 'ABS:<file>', method), references to stage0.up
+    # (file or None, method), src: a :ref reference to a same-stage non-repeating component (see c13_impl.real_refs)
+    # late: not staged in before the observer starts but by the script's Stg<i> event (or by its first write)
+    return {'direct': [list(x) for x in direct], 'comp': [list(x) for x in comp], 'src': bool(src), 'late': bool(late)}
+
+
+def model_steps(cfg, steps):
+    """what the engine model is told about a script with REAL producers: a stage-in (the script's Stg<i>, or before the
+    observer starts when the script has none) is nothing, unless the producer has copyout references - those are output
+    by design, i.e. a write of the producer at that moment"""
+    if cfg.get('real') is None:
+        return steps
+    has_out = [bool(c13_impl.real_staged(rp)[1]) for rp in cfg['real']]
+    scripted = {i for i, rp in enumerate(cfg['real']) if rp.get('late')}
+    staged = set()
+    out = []
+    for k, st in enumerate(steps):
+        evs = []
+        if k == 0:
+            evs += ['Out%d' % i for i in range(len(has_out)) if has_out[i] and i not in scripted]
+        for e in st['evs']:
+            if e.startswith('Stg'):
+                i = int(e[3:])
+                if i < len(has_out) and has_out[i] and i in scripted and i not in staged:
+                    evs.append('Out%d' % i)
+                staged.add(i)
+            else:
+                if is_out(e):
+                    staged.add(int(e[3:] or 0))     # (a producer that writes has been staged in)
+                evs.append(e)
+        out.append(dict(st, evs=evs))
+    return out
+
+
+def coq_wd_case(ops):
+    """the history of one real working directory (c13_impl: wd_ops) as a WorkDir.check_wd case"""
+    names = lambda l: '(%s : list string)' % clist([cstr(n) for n in l])
+    t = []
+    for op in ops:
+        if op[0] == 'stage':
+            t.append('(WStage %s %s %s)' % (names(op[1]), names(op[2]), cZ(op[3])))
+        elif op[0] == 'put':
+            t.append('(WPut %s %s)' % (cstr(op[1]), cZ(op[2])))
+        else:
+            t.append('(WObs %s %s %s)' % (cZ(op[1]), names(op[2]), names(op[3])))
+    return '(false, (%s : list wop))' % clist(t)
 
 
 # ------------------------------------------------------------------ Coq printing
@@ -182,6 +236,17 @@ def predicate(ctx, cfg, steps, res):
     n = len(obs)
     if res['errors']:
         ctx.fail(case, 'driver protocol error: %s' % res['errors'][:3])
+    # (0) what counts as producer output (real producers): a working directory reports output iff the producer has
+    # written something after it was staged in (or has copyout references); staged-in inputs are not output
+    for b in (res.get('wd_bad') or [])[:1]:
+        if b['output'] != b['made']:
+            ctx.fail(case, 'at poll %d the working directory of producer %d reports %s as its OUTPUT; what the producer created after it '
+                           'was staged in (and its copyout references) is %s%s' % (
+                               b['poll'], b['producer'], b['output'], b['made'],
+                               ': staged-in inputs are taken for output' if set(b['output']) - set(b['made']) else ''))
+        else:
+            ctx.fail(case, 'at poll %d the working directory of producer %d reports %s as output since %d ms; the producer created %s '
+                           'since then' % (b['poll'], b['producer'], b['output_since'], b['since_ms'], b['made_since']))
     # (1) never executes before there is producer output it can consume
     plist = c13_impl.prod_list(cfg)
     for (t, p, rc, los, k) in execs:
@@ -285,6 +350,7 @@ def explore(ctx, cases, label='C13 trace'):
     drv = c13_impl.Driver()
     terms = []
     terms3 = []
+    terms_wd = []
     try:
         for cfg, steps in cases:
             res = drv.run_case(cfg, steps)
@@ -292,8 +358,16 @@ def explore(ctx, cases, label='C13 trace'):
             stagein = cfg.get('alive0') is not None
             # stageIn mode: the predicate looks at what reached the engine (writes actually made, the notification
             # delivered by the real ComponentState.stageIn subscription)
-            seen = [dict(st, evs=res['eff'][i]) for i, st in enumerate(used)] if stagein else used
+            seen = [dict(st, evs=res['eff'][i]) for i, st in enumerate(used)] if stagein else model_steps(cfg, used)
             predicate(ctx, cfg, seen, res)
+            if cfg.get('real') is not None:
+                ctx.count('real_producer_scripts')
+                for rp, ops in zip(cfg['real'], res.get('wd_ops') or []):
+                    ins, outs = c13_impl.real_staged(rp)
+                    ctx.count('real_producer_%s%s%s' % ('with_staged_inputs' if ins else 'without_staged_inputs',
+                                                        '' if (rp['comp'] or rp['src']) else '_no_component_reference',
+                                                        '_copyout' if outs else ''))
+                    terms_wd.append((coq_wd_case(ops), cfg, used, ops))
             if stagein:
                 # "all of its producers have finished": the notification reaches the engine exactly when the last
                 # living producer finishes (at stageIn when there is none), and at most once
@@ -331,7 +405,7 @@ def explore(ctx, cases, label='C13 trace'):
             if stagein:
                 terms3.append((coq_case4(cfg, used, res), cfg, used, res))
                 continue
-            terms.append((coq_case(cfg, used, res), cfg, used, res))
+            terms.append((coq_case(cfg, model_steps(cfg, used), res), cfg, used, res))
             if nontriv:
                 ctx.sample({'cfg': cfg, 'script': [[s['dt'], s['evs'], s['o']] for s in used],
                             'launches(time,producers_finished,rc)': [e[:3] for e in res['execs']],
@@ -342,10 +416,15 @@ def explore(ctx, cases, label='C13 trace'):
     for k, i in enumerate(bad):
         _, cfg, used, res = terms[i]
         m = ctx.model_eval(HEADER, 'let r := run_steps2 %s (init %s) %s in (fst r, mon_done (snd r), rev (execs (snd r)))'
-                           % (coq_cfg(cfg), coq_cfg(cfg), coq_steps(used))) if k < 2 else ''
+                           % (coq_cfg(cfg), coq_cfg(cfg), coq_steps(model_steps(cfg, used)))) if k < 2 else ''
         ctx.disagree({'cfg': cfg, 'steps': used}, {'obs': res['obs'], 'finished': res['finished'],
                                                    'execs': [e[:3] for e in res['execs']]}, m,
                      label + ': RepeatingEngine/CreateMonitor vs Repeat.Model.run_steps')
+    bad = ctx.model_mismatches(HEADER_WD, [t[0] for t in terms_wd], 'check_wd', chunk=400, name='model_wd') if terms_wd else []
+    for k, i in enumerate(bad):
+        _, cfg, used, ops = terms_wd[i]
+        ctx.disagree({'cfg': cfg, 'steps': used}, ops, None,
+                     label + ': Job.stageIn + WorkingDirectory.output / outputSinceDate vs Repeat.WorkDir.stage_in / output / output_since')
     bad = ctx.model_mismatches(HEADER4, [t[0] for t in terms3], 'check_case4', chunk=250, name='model4') if terms3 else []
     for k, i in enumerate(bad):
         _, cfg, used, res = terms3[i]
@@ -484,6 +563,79 @@ def gen_stagein(rng, thorough):
         # one absolute reference each)
         gen_layout(rng, cfg, steps)
     return cfg, steps
+
+
+REAL_SHAPES = [
+    RP(), RP(direct=[('seed.txt', 'copy')]), RP(direct=[('seed.txt', 'link')]),
+    RP(direct=[('ABS:seed.txt', 'copy'), ('mesh.dat', 'link')]), RP(direct=[('seed.txt', 'ref')]),
+    RP(comp=[('f.txt', 'copy')]), RP(direct=[('seed.txt', 'copy')], comp=[(None, 'ref')]),
+    RP(direct=[('mesh.dat', 'copy')], comp=[('f.txt', 'copyout')]), RP(direct=[('seed.txt', 'copyout')]),
+    RP(direct=[('seed.txt', 'link')], comp=[(None, 'link'), ('g.dat', 'ref')]), RP(direct=[('mesh.dat', 'copy')], src=True),
+]
+
+
+def gen_rp(rng):
+    """the references of one real producer: 0-2 direct references (files of the package or absolute paths; copy / link /
+    ref, rarely copyout), 0-2 references to the upstream component (a file or its directory), possibly a same-stage
+    source; about a third are 'source-like' (no component reference at all); staged names are distinct"""
+    used = set()
+    direct, comp = [], []
+    for _ in range(rng.choice([0, 1, 1, 1, 2])):
+        f = rng.choice(c13_impl.DATA_FILES)
+        m = rng.choice(['copy', 'copy', 'link', 'link', 'ref', 'copyout'] if rng.random() < 0.3 else ['copy', 'copy', 'link', 'link', 'ref'])
+        if f in used:
+            continue
+        used.add(f)
+        direct.append((('ABS:' if rng.random() < 0.3 else '') + f, m))
+    if rng.random() < 0.62:
+        for _ in range(rng.choice([1, 1, 2])):
+            f = rng.choice(c13_impl.UP_FILES + [None])
+            m = rng.choice(['ref', 'ref', 'copy', 'link'] + (['copyout'] if f else []))
+            if (f or 'up') in used:
+                continue
+            used.add(f or 'up')
+            comp.append((f, m))
+    return RP(direct=direct, comp=comp, src=rng.random() < 0.2)
+
+
+def gen_real(rng, thorough):
+    """a script whose producers are REAL jobs with REAL working directories staged in by the REAL Job.stageIn"""
+    while True:
+        cfg, steps = gen_random(rng, thorough)
+        if c13_impl.prod_list(cfg):
+            break
+    if len(steps) > 10:
+        steps = steps[:10]
+    n = len(c13_impl.prod_list(cfg))
+    cfg['real'] = [gen_rp(rng) for _ in range(n)]
+    for i in range(n):
+        if rng.random() < 0.25:
+            # staged in while the observer is already polling, not later than its first write
+            name = 'Out' if i == 0 else 'Out%d' % i
+            first = next((k for k, st in enumerate(steps) if any(e in (name, 'Out%d' % i) for e in st['evs'])), len(steps) - 1)
+            k = rng.randint(0, first)
+            evs = steps[k]['evs']
+            pos = min([q for q, e in enumerate(evs) if e in (name, 'Out%d' % i)] + [len(evs)]) if k == first else rng.randint(0, len(evs))
+            evs.insert(rng.randint(0, pos), 'Stg%d' % i)
+            cfg['real'][i]['late'] = True
+    return cfg, steps
+
+
+def systematic_real():
+    """every producer shape (REAL_SHAPES) x {non-repeating, repeating} x the step of its first write (never, before the
+    observer starts, after two polls) for a same-stage subject observed for 6 polls, the producers finishing at poll 3;
+    plus two-producer combinations of a source-like subject with staged inputs and each other shape"""
+    cases = []
+    for rp in REAL_SHAPES:
+        for rep in (False, True):
+            for w in (None, 0, 2):
+                steps = [S(5000, (['Out'] if w == k else []) + (['Notify'] if k == 3 else [])) for k in range(6)]
+                cases.append((CFG(retries=1, prods=[PR(True, rep)], real=[dict(rp)]), steps))
+    for rp in REAL_SHAPES:
+        for w in (None, 1):
+            steps = [S(5000, (['Out1'] if k == 0 else []) + (['Out'] if w == k else []) + (['Notify'] if k == 3 else [])) for k in range(5)]
+            cases.append((CFG(retries=0, prods=[PR(True, False), PR(True, True)], real=[RP(direct=[('seed.txt', 'copy')]), dict(rp)]), steps))
+    return cases
 
 
 NAME_POOL = ['sim', 'sim', 'a', 'obs', 'post-proc_1']
@@ -666,6 +818,21 @@ def corpus():
     c.append((CFG(prods=[PR(stage=2, name='sim'), PR(stage=2, name='sim-0', loop_only=True)], alive0=[True, True],
                   refs=[REF(1, 0, via='loop', method='loopref')]),
               [S(0, ['Out']), S(), S(5000, ['Out', 'Fin0']), S(), S(5000, ['Fin1']), S(), S(), S(), S()]))
+    # what counts as producer output (REAL producers, REAL Job.stageIn + WorkingDirectory): a source-like subject that
+    # only stages in files of the package (copy / link; no component reference) has NO output until it writes: the
+    # observer does not execute for three polls, starts once the subject has written, sees the final output and stops
+    quiet = [S(0), S(), S(), S(5000, ['Out']), S(), S(5000, ['Out', 'Notify']), S(), S(), S()]
+    for rp in (RP(direct=[('seed.txt', 'copy')]), RP(direct=[('ABS:mesh.dat', 'link'), ('seed.txt', 'copy')]),
+               RP(direct=[('seed.txt', 'copy')], comp=[('f.txt', 'link'), (None, 'ref')]), RP()):
+        for rep in (False, True):
+            c.append((CFG(retries=1, check_out=rep, prods=[PR(True, rep)], real=[rp]),
+                      [dict(st, evs=list(st['evs']), o=dict(st['o'])) for st in quiet]))
+    # ... staged in while the observer is already polling; never writes at all: the observer never executes
+    c.append((CFG(retries=1, prods=[PR(True, False)], real=[RP(direct=[('seed.txt', 'copy')], late=True)]),
+              [S(0), S(), S(5000, ['Stg0']), S(), S(5000, ['Notify']), S(), S(), S()]))
+    # ... copyout references are output by design: the observer may execute at once
+    c.append((CFG(retries=1, prods=[PR(True, False)], real=[RP(direct=[('seed.txt', 'copy')], comp=[('f.txt', 'copyout')])]),
+              [S(0), S(), S(5000, ['Notify']), S(), S()]))
     return c
 
 
@@ -680,7 +847,9 @@ def run(ctx):
                 'both finishing steps of two producers for <= 4/6 polls, and random; whom it waits for is decided by the real ComponentState.producers: '
                 'random layouts with component names clashing across stages, duplicate / relative / loop references in any order, uninstantiated '
                 'earlier-stage producers, and exhaustively {same name, distinct} x {finished, not instantiated, alive} x 6 reference orders x the '
-                'finishing step of the subject for <= 3/5 polls); non-trivial = at least one launch and '
+                'finishing step of the subject for <= 3/5 polls); plus real-producer scripts (real Job objects + working directories staged in by the real '
+                'Job.stageIn: 11 reference shapes x repeating or not x 3 first-write steps, two-producer combinations, 150/2500 random shapes and scripts, late '
+                'stage-in); non-trivial = at least one launch and '
                 'the notification delivered; distinct by (cfg, consumed script)')
     cases = corpus()
     ctx.count('corpus_cases', len(cases))
@@ -712,6 +881,12 @@ def run(ctx):
     cases += rf
     for _ in range(12000 if thorough else 1200):
         cases.append(gen_stagein(rng, thorough))
+    # what counts as producer output: REAL producer jobs, REAL working directories, the REAL Job.stageIn
+    rl = systematic_real()
+    ctx.count('systematic_real_producer_cases', len(rl))
+    cases += rl
+    for _ in range(2500 if thorough else 150):
+        cases.append(gen_real(rng, thorough))
     explore(ctx, cases)
 
 
